@@ -17,6 +17,7 @@
 import Sbepp.Lemmas.TraitsDerived
 import Sbepp.Lemmas.TraitsEntities
 import Sbepp.Lemmas.TraitsDistinct
+import Sbepp.Lemmas.TraitsLiterals
 
 namespace Sbepp.Properties.C18
 open Sbepp Sbepp.Schema Sbepp.Spec.Traits Sbepp.Gen.Traits
@@ -302,6 +303,36 @@ theorem traits_derived_default_range (s : SchemaDef) (rows : List Row) (h : trai
           · intro hn; rw [hmin hn]; simp
           · intro hn; rw [hmax hn]; simp
           · intro ho; simp [ho] at hopt
+
+/-- **leading_zeros_keep_value**: numeric schema texts denote their decimal value however
+    many superfluous leading zeros they carry - the text the generator pastes
+    (`strip_leading_zeros`) reads back as the same integer, for every text `from_chars` accepts -/
+theorem leading_zeros_keep_value (s : String) (v : Int) (h : decInt? s = some v) :
+    decInt? (stripLeadingZeros s) = some v := strip_preserves_value s v h
+
+/-- boundary grid of explicit minValue / maxValue / nullValue texts: negative and positive
+    leading-zero texts whose digits are all octal (`-010` would be −8 as a C++ literal) and ones
+    with 8/9 (`-08` would not compile), for every signed width, type limits, zero -/
+def literalGrid : List (Prim × String × Int) :=
+  [(.int8, "-010", -10), (.int8, "-0100", -100), (.int8, "-08", -8), (.int8, "-019", -19), (.int8, "0127", 127),
+   (.int8, "-00128", -128), (.int8, "-00", 0), (.int8, "000", 0),
+   (.int16, "-010", -10), (.int16, "-0100", -100), (.int16, "-0777", -777), (.int16, "-0089", -89),
+   (.int16, "-032768", -32768), (.int16, "0000032767", 32767),
+   (.int32, "-010", -10), (.int32, "-0777", -777), (.int32, "-0098", -98), (.int32, "-02147483648", -2147483648),
+   (.int64, "-010", -10), (.int64, "-0777", -777), (.int64, "-09", -9), (.int64, "-009223372036854775808", -9223372036854775808),
+   (.int64, "-09223372036854775807", -9223372036854775807), (.int64, "009223372036854775807", 9223372036854775807),
+   (.uint8, "010", 10), (.uint8, "0255", 255), (.uint16, "0000010", 10), (.uint32, "04294967295", 4294967295),
+   (.uint64, "0018446744073709551615", 18446744073709551615), (.uint64, "09223372036854775808", 9223372036854775808),
+   (.char, "065", 65)]
+
+/-- **explicit_literal_grid**: on the grid the model's value of an explicit range text is the
+    two's-complement object representation of its decimal value -/
+theorem explicit_literal_grid : ∀ g ∈ literalGrid,
+    (literalValue g.1 g.2.1).toOption = some (num (g.2.2 % (2 : Int) ^ g.1.bits).toNat) := by decide +kernel
+
+/-- enumerator values of the grid read as their decimal value -/
+theorem enum_value_grid : ∀ g ∈ literalGrid, g.1 ≠ .char →
+    (enumValueText g.1.name g.2.1).toOption = some (toString g.2.2) := by decide +kernel
 
 /-- **children_lists_in_schema_order**: every children list of an entity that is not a
     ref (`message_tags`; `field_tags`, `group_tags`, `data_tags` of every message and group;
